@@ -98,8 +98,12 @@ SHAPES = {
     "LanguageAccept": [(["en-US", "en", "*"], ["en", "en_us", "de"]), (["de", "en-gb"], ["en-GB", "de", "fr"]), (["*", "fr"], ["fr", "it"]),
                        (["en_US", "fr-CA"], ["fr", "en"]), (["en", "de"], ["it", "en-US", "de_AT"]), (["en_US", "zh-Hant-TW"], ["de", "zh", "en-GB"]),
                        # '_' and '-' are interchangeable on either side
-                       (["en_US", "fr", "*"], ["fr", "en-US", "de_AT"]), (["de_at", "pt-BR"], ["pt_br", "de-AT"])],
-    "CharsetAccept": [(["utf-8", "latin1", "*"], ["iso-8859-1", "UTF8", "ascii"]), (["ascii", "utf8"], ["us-ascii", "utf-8"])],
+                       (["en_US", "fr", "*"], ["fr", "en-US", "de_AT"]), (["de_at", "pt-BR"], ["pt_br", "de-AT"]),
+                       # several offers share the primary subtag the client asked for: the first one
+                       (["en", "de"], ["en-GB", "en_US", "de-AT"])],
+    "CharsetAccept": [(["utf-8", "latin1", "*"], ["iso-8859-1", "UTF8", "ascii"]), (["ascii", "utf8"], ["us-ascii", "utf-8"]),
+                      # names Python has no codec for are compared case-insensitively as written
+                      (["ISO-8859-8-I", "UTF-8"], ["utf8", "iso-8859-8-i"]), (["x-User-Defined"], ["X-USER-DEFINED", "ascii"])],
 }
 
 
